@@ -29,6 +29,9 @@
   below `<path>.Env`; `path` itself may carry index groups); `env_exact` keeps its key-only frame clause.
 -/
 import YtkProofs.PipelineFrame
+import YtkProofs.GapPipelineOps
+import YtkProofs.Codec
+import YtkProofs.ValidB
 import YtkProofs.EnvFrame
 import YtkProofs.PipelineDataWF
 import YtkProofs.MergeRel
@@ -39,6 +42,9 @@ import YtkProofs.Decisions
 import YtkModel.Generated.Constants
 import YtkProofs.Decisions2
 import YtkProofs.FuncsLemmas
+import YtkProofs.GapPipelineData
+import YtkProofs.GapPipelinePatch
+import YtkProofs.GapPatchFrame
 
 namespace Ytk.C13
 
@@ -1280,6 +1286,465 @@ theorem nonvacuous_heap_patchOp_runs_fold :
   decide +kernel
 
 end heap
+
+/-! ## round 7 (clause audit): import at the root, the export table of `exportOp` itself, the two base64 models -/
+
+/-- ImportOp's loop over the decoded document's children (empty path) is literally SetOp's replace loop -/
+theorem importRoot_eq_setReplaceRoot (data : AMap Node) (kvs : List (String × Node)) :
+    importRoot data kvs = setReplaceRoot data kvs :=
+  PD.importRoot_eq_setReplaceRoot kvs data
+
+/-- the structured modes hand the decoder's container to the operation -/
+theorem import_root_structured (cd : Codecs) (bytes : List Nat) :
+    toValue cd "yaml" bytes = (cd.yaml bytes).map .cont ∧
+    toValue cd "json" bytes = (cd.json bytes).map .cont ∧
+    toValue cd "properties" bytes = (cd.props bytes).map .cont := by
+  simp [toValue]
+
+/-- Import with an EMPTY (rendered) path and a mode whose decoder returns the container `kvs` merges per key
+    at the root and changes nothing else: no error, every key of the decoded document holds the decoded
+    value afterwards, and every other top-level key of the data is untouched.  (Decoded keys: plain child
+    names, pairwise different — the children of a container built by FromReader from path-safe keys.) -/
+theorem import_root_lookup (cd : Codecs) (lenient : String → String) (bytes : List Nat) (mode path : String)
+    (data kvs : AMap Node) (hp : lenient path = "") (hv : toValue cd mode bytes = some (.cont kvs))
+    (hk : ∀ p ∈ kvs, KeyPlain p.1) (hd : kvs.Pairwise (fun p p' => p.1 ≠ p'.1)) :
+    (importOp cd lenient (some bytes) mode path data).2 = false ∧
+    (∀ p ∈ kvs, AMap.get? (importOp cd lenient (some bytes) mode path data).1 p.1 = some p.2) ∧
+    (∀ k, (∀ p ∈ kvs, p.1 ≠ k) →
+      AMap.get? (importOp cd lenient (some bytes) mode path data).1 k = AMap.get? data k) := by
+  have h : importOp cd lenient (some bytes) mode path data = (setReplaceRoot data kvs, false) := by
+    simp [importOp, hv, hp, PD.importRoot_eq_setReplaceRoot]
+  rw [h]
+  exact ⟨rfl, setReplaceRoot_spec kvs data hk hd⟩
+
+/-- … it is the very document SetOp (strategy replace, empty path) produces for the decoded payload, for
+    ALL decoded key sets (dotted keys and index groups included) -/
+theorem import_root_eq_set_replace (cd : Codecs) (lenient : String → String) (bytes : List Nat)
+    (mode path : String) (data kvs : AMap Node) (hp : lenient path = "")
+    (hv : toValue cd mode bytes = some (.cont kvs)) :
+    Outcome.ok (importOp cd lenient (some bytes) mode path data).1 =
+      setOp mergeC data (some kvs) "" (some "replace") := by
+  simp [importOp, hv, hp, PD.importRoot_eq_setReplaceRoot, setOp, setReplace]
+
+/-- non-vacuity: yaml mode at the root of `exData` with the probe codecs: the key `codec` arrives between
+    the untouched `a` and `k` -/
+theorem nonvacuous_import_root :
+    toValue probeCodecs "yaml" [104, 105] = some (.cont [("codec", .leaf ⟨"string", "yaml"⟩)]) ∧
+    (∀ p ∈ ([("codec", .leaf ⟨"string", "yaml"⟩)] : AMap Node), KeyPlain p.1) ∧
+    importOp probeCodecs id (some [104, 105]) "yaml" "" exData =
+      ([("a", .cont [("b", .leaf ⟨"int", "1"⟩), ("c", .cont [("d", .leaf ⟨"string", "x"⟩)])]),
+        ("codec", .leaf ⟨"string", "yaml"⟩), ("k", .leaf ⟨"bool", "true"⟩)], false) := by
+  refine ⟨by decide, ?_, by decide⟩
+  intro p hp
+  simp only [List.mem_singleton] at hp
+  subst hp
+  exact ⟨by decide, by decide⟩
+
+/-- what ExportOp.Do resolves: a nil Path is the whole document, otherwise Lookup of the resolved path -/
+def exportTarget (r : String → Option String) (path : Option ValOrRef) (data : AMap Node) : Option Node :=
+  match path with
+  | none => some (.cont data)
+  | some p => lookup data (p.resolve r data)
+
+/-- `exportOp` is a function of the format, `canOpen` and `exportTarget` -/
+theorem exportOp_eq (r : String → Option String) (format : String) (path : Option ValOrRef) (canOpen : Bool)
+    (data : AMap Node) :
+    exportOp r format path canOpen data =
+      match exportDecision (Format.ofString format) (Target.of (exportTarget r path data)) with
+      | .errorBeforeOpen => (true, false, none)
+      | .panic => (true, false, none)
+      | dec =>
+        if !canOpen then (true, false, none)
+        else match dec, exportTarget r path data with
+          | .errorAfterOpen, _ => (true, true, none)
+          | .writeNode, some (.cont kvs) => (false, true, some (.doc (Format.ofString format) kvs))
+          | .writeEmptyDoc, _ => (false, true, some (.doc (Format.ofString format) []))
+          | .writeLeafText, some (.leaf v) => (false, true, some (.text v.text))
+          | .writeEmptyText, _ => (false, true, some (.text ""))
+          | _, _ => (true, true, none) := by
+  cases path <;> rfl
+
+/-- The result (error flag, file opened, what was handed to the encoder) of `exportOp` ITSELF — the function
+    the driver runs — for every format × kind of target × canOpen, for an arbitrary path:
+    * unknown format: error, file not opened, whatever else;
+    * the file cannot be opened: error, nothing written, whatever the format;
+    * text: absent → the empty text; leaf → its `%v`; list / container → error AFTER the file was opened
+      (created / truncated);
+    * yaml / json / properties: container → that container; absent / leaf / list → the empty document. -/
+theorem exportOp_table (r : String → Option String) (format : String) (path : Option ValOrRef) (canOpen : Bool)
+    (data : AMap Node) :
+    (Format.ofString format = .unknown → exportOp r format path canOpen data = (true, false, none)) ∧
+    (canOpen = false → exportOp r format path canOpen data = (true, false, none)) ∧
+    (canOpen = true →
+      (Format.ofString format = .text →
+        (exportTarget r path data = none →
+          exportOp r format path canOpen data = (false, true, some (.text ""))) ∧
+        (∀ v, exportTarget r path data = some (.leaf v) →
+          exportOp r format path canOpen data = (false, true, some (.text v.text))) ∧
+        (∀ xs, exportTarget r path data = some (.list xs) →
+          exportOp r format path canOpen data = (true, true, none)) ∧
+        (∀ kvs, exportTarget r path data = some (.cont kvs) →
+          exportOp r format path canOpen data = (true, true, none))) ∧
+      (∀ f, Format.ofString format = f → f = .yaml ∨ f = .json ∨ f = .properties →
+        (∀ kvs, exportTarget r path data = some (.cont kvs) →
+          exportOp r format path canOpen data = (false, true, some (.doc f kvs))) ∧
+        (exportTarget r path data = none →
+          exportOp r format path canOpen data = (false, true, some (.doc f []))) ∧
+        (∀ v, exportTarget r path data = some (.leaf v) →
+          exportOp r format path canOpen data = (false, true, some (.doc f []))) ∧
+        (∀ xs, exportTarget r path data = some (.list xs) →
+          exportOp r format path canOpen data = (false, true, some (.doc f []))))) := by
+  rw [exportOp_eq]
+  refine ⟨?_, ?_, ?_⟩
+  · intro h; simp [h, exportDecision]
+  · intro h; subst h
+    cases Format.ofString format <;> cases hd : exportTarget r path data with
+    | none => simp [exportDecision, Target.of]
+    | some n => cases n <;> simp [exportDecision, Target.of]
+  · intro h; subst h
+    refine ⟨?_, ?_⟩
+    · intro hf
+      refine ⟨?_, ?_, ?_, ?_⟩ <;> intros <;> simp_all [exportDecision, Target.of]
+    · intro f hf hk
+      subst hf
+      refine ⟨?_, ?_, ?_, ?_⟩ <;> intros <;> rcases hk with hk | hk | hk <;>
+        simp_all [exportDecision, Target.of]
+
+/-- non-vacuity: every row of the table occurs on `exData` (whole document, the container `a`, the leaf `k`,
+    the missing `zz`; `exList` for a list target) -/
+theorem nonvacuous_exportOp_table :
+    exportOp (fun _ => none) "toml" none true exData = (true, false, none) ∧
+    exportOp (fun _ => none) "yaml" none false exData = (true, false, none) ∧
+    (exportOp (fun _ => none) "text" (some ⟨false, "", "zz"⟩) true exData).2.1 = true ∧
+    (exportOp (fun _ => none) "text" (some ⟨false, "", "k"⟩) true exData).1 = false ∧
+    exportOp (fun _ => none) "text" (some ⟨false, "", "a"⟩) true exData = (true, true, none) ∧
+    (exportOp (fun _ => none) "json" (some ⟨false, "", "a"⟩) true exData).1 = false ∧
+    (exportOp (fun _ => none) "properties" (some ⟨false, "", "k"⟩) true exData).1 = false ∧
+    exportTarget (fun _ => none) (some ⟨false, "", "k"⟩) exData = some (.leaf ⟨"bool", "true"⟩) ∧
+    exportTarget (fun _ => none) (some ⟨false, "", "zz"⟩) exData = none ∧
+    exportTarget (fun _ => none) none exData = some (.cont exData) := by
+  refine ⟨rfl, rfl, by decide, by decide, rfl, by decide, by decide, by decide, by decide, rfl⟩
+
+/-- C13 ↔ C17: the pipeline's base64 model and the k8s one (`K8s.b64encL`, which has the proved decoding
+    round trip) produce the same characters on EVERY byte list -/
+theorem b64Encode_eq_k8s (bs : List UInt8) : b64Encode (bs.map UInt8.toNat) = K8s.b64encL bs :=
+  PD.b64Encode_eq_k8s bs
+
+/-- … so the leaf stored by binary-mode import is the standard base64 text of the content, and it
+    base64-DEcodes (with C17's decoder) to exactly the imported bytes -/
+theorem import_binary_decodes (cd : Codecs) (lenient : String → String) (bs : List UInt8)
+    (path : String) (data : AMap Node) (hp : lenient path ≠ "") :
+    ∃ s : String,
+      lookup (importOp cd lenient (some (bs.map UInt8.toNat)) "binary" path data).1 (lenient path) =
+        some (.leaf ⟨"string", s⟩) ∧
+      s = K8s.b64enc bs ∧ K8s.b64dec s = some bs := by
+  refine ⟨K8s.b64enc bs, ?_, rfl, K8s.b64dec_b64enc bs⟩
+  rw [(import_binary_b64 cd lenient _ path data hp).2, PD.b64Encode_eq_k8s]
+  rfl
+
+/-- non-vacuity: the bytes `68 69 00 ff` imported in binary mode at `a.bin` are stored as `aGkA/w==`,
+    which decodes to them -/
+theorem nonvacuous_import_binary_decodes :
+    lookup (importOp probeCodecs id (some ([104, 105, 0, 255].map UInt8.toNat)) "binary" "a.bin" exData).1 "a.bin" =
+      some (.leaf ⟨"string", "aGkA/w=="⟩) ∧
+    K8s.b64dec "aGkA/w==" = some [104, 105, 0, 255] := by
+  decide +kernel
+
+/-! ## round 7: PatchOp over the patch package's model (C13 ↔ C09)
+
+  `patchOp_eq_patch` above holds for an ARBITRARY function `patchDo`.  Here the parameters are C09's model
+  (YtkModel/GapPipelinePatch.lean): `parsePath := Ptr.parseS` (patch.ParsePath), `patchDo := c09PatchDo`, i.e.
+  `Patch.patchDo` (patch.Do) run on the operation object `c09Obj call` and the root container `.cont data`;
+  `patchOpC09` is `patchOp` with these.  (The driver's `patchargs` op only runs `patchArgs`, with a parser
+  that checks the leading '/'; the patch.Do part is C09's driver.) -/
+
+/-- PatchOp.Do is C09's interpreter on the operation object built from the rendered path (parsed as a JSON
+    pointer), the op name, the parsed `from` (absent when empty) and the value — the immediate one, else the
+    node found at the rendered valueFrom -/
+theorem patchOpC09_eq (lenient : String → String) (ps : PatchSpec) (data : AMap Node)
+    (call : PatchCall Ptr.Path) (h : patchArgs Ptr.parseS lenient ps data = some call) :
+    patchOpC09 lenient ps data = c09PatchDo call data ∧
+    (c09Obj call).op = ps.op ∧
+    Ptr.parseS (lenient ps.path) = (c09Obj call).path ∧
+    (c09Obj call).frm = (if ps.from_ = "" then none else Ptr.parseS ps.from_) ∧
+    (c09Obj call).value = (match ps.value with
+      | some v => some v
+      | none => match ps.valueFrom with
+        | some vf => lookup data (lenient vf)
+        | none => none) := by
+  obtain ⟨h1, h2, h3, h4⟩ := patchArgs_fields _ _ _ _ _ h
+  exact ⟨patchOp_eq_patch _ _ _ _ _ _ h, h1, h2, h3, h4⟩
+
+/-- In C09's domain (in-scope non-root pointers, valid value, valid document) the conversion between the root
+    container and its children loses nothing: C09's interpreter returns exactly the container of the
+    pipeline op's new data, with `err` / `ok` as the op's error flag; and the pipeline op IS the RFC 6902
+    reference on that operation object — the reference's document on success, the old data and the error flag
+    on failure. -/
+theorem patchOp_refines_C09 (lenient : String → String) (ps : PatchSpec) (data : AMap Node)
+    (call : PatchCall Ptr.Path) (h : patchArgs Ptr.parseS lenient ps data = some call)
+    (ho : Patch.OpOk (c09Obj call)) (hd : (Node.cont data).Valid) :
+    Patch.patchDo (c09Obj call) (.cont data) =
+      (.cont (patchOpC09 lenient ps data).1, if (patchOpC09 lenient ps data).2 then .err else .ok ()) ∧
+    patchOpC09 lenient ps data = (match Patch.rfc6902 (c09Obj call) (.cont data) with
+      | some (.cont d') => (d', false)
+      | _ => (data, true)) := by
+  have e : patchOpC09 lenient ps data = c09PatchDo call data := patchOp_eq_patch _ _ _ _ _ _ h
+  rw [e]
+  exact ⟨patchDo_eq_c09PatchDo call data ho hd, c09PatchDo_eq_rfc call data ho hd⟩
+
+/-- C09's no-panic theorem transferred: the patch.Do call made by the pipeline op never panics, so the
+    error flag of the pipeline op (which cannot tell `err` from `panic`) is exactly "patch.Do returned an
+    error" -/
+theorem patchOp_C09_no_panic (lenient : String → String) (ps : PatchSpec) (data : AMap Node)
+    (call : PatchCall Ptr.Path) (h : patchArgs Ptr.parseS lenient ps data = some call)
+    (ho : Patch.OpOk (c09Obj call)) (hd : (Node.cont data).Valid) :
+    (Patch.patchDo (c09Obj call) (.cont data)).2 ≠ .panic ∧
+    ((patchOpC09 lenient ps data).2 = true ↔ (Patch.patchDo (c09Obj call) (.cont data)).2 = .err) := by
+  rw [(patchOp_refines_C09 lenient ps data call h ho hd).1]
+  cases (patchOpC09 lenient ps data).2 <;> simp
+
+/-- C09's "failure leaves the document unchanged" transferred to the WHOLE pipeline op (unparsable paths
+    included): whenever PatchOp.Do returns an error the data is exactly what it was -/
+theorem patchOp_C09_error_unchanged (lenient : String → String) (ps : PatchSpec) (data : AMap Node)
+    (ho : ∀ call, patchArgs Ptr.parseS lenient ps data = some call → Patch.OpOk (c09Obj call))
+    (hd : (Node.cont data).Valid) (he : (patchOpC09 lenient ps data).2 = true) :
+    (patchOpC09 lenient ps data).1 = data := by
+  cases h : patchArgs Ptr.parseS lenient ps data with
+  | none => simp [patchOpC09, patchOp, h]
+  | some call =>
+    have e : patchOpC09 lenient ps data = c09PatchDo call data := patchOp_eq_patch _ _ _ _ _ _ h
+    rw [e] at he ⊢
+    exact c09PatchDo_error_unchanged call data (ho call h) hd he
+
+/-- … and the data stays a valid document (sorted unique keys without index groups), error or not -/
+theorem patchOp_C09_valid (lenient : String → String) (ps : PatchSpec) (data : AMap Node)
+    (ho : ∀ call, patchArgs Ptr.parseS lenient ps data = some call → Patch.OpOk (c09Obj call))
+    (hd : (Node.cont data).Valid) : (Node.cont (patchOpC09 lenient ps data).1).Valid := by
+  cases h : patchArgs Ptr.parseS lenient ps data with
+  | none => simpa [patchOpC09, patchOp, h] using hd
+  | some call =>
+    have e : patchOpC09 lenient ps data = c09PatchDo call data := patchOp_eq_patch _ _ _ _ _ _ h
+    rw [e]
+    exact c09PatchDo_valid call data (ho call h) hd
+
+def exPatchData : AMap Node :=
+  [("a", .list [.leaf ⟨"int", "1"⟩, .leaf ⟨"int", "2"⟩]), ("b", .cont [("x", .leaf ⟨"int", "1"⟩)])]
+
+/-- non-vacuity: an insert into a list (the call that is built is in C09's scope), a move out of a container
+    into a list, `copy` without `from` (error, data unchanged), `add` of the node found at valueFrom `a[1]`,
+    a remove beyond the list (error), a path without leading '/' (error before patch.Do) -/
+theorem nonvacuous_patchOp_C09 :
+    (patchArgs Ptr.parseS id ⟨"add", "", "/a/1", some (.leaf ⟨"int", "9"⟩), none⟩ exPatchData).map
+        (fun c => (c.op, c.from_, c.path, c.value)) =
+      some ("add", none, ["a", "1"], some (.leaf ⟨"int", "9"⟩)) ∧
+    Patch.inScope (c09Obj ⟨"add", none, ["a", "1"], some (.leaf ⟨"int", "9"⟩)⟩) = true ∧
+    patchOpC09 id ⟨"add", "", "/a/1", some (.leaf ⟨"int", "9"⟩), none⟩ exPatchData =
+      ([("a", .list [.leaf ⟨"int", "1"⟩, .leaf ⟨"int", "9"⟩, .leaf ⟨"int", "2"⟩]),
+        ("b", .cont [("x", .leaf ⟨"int", "1"⟩)])], false) ∧
+    patchOpC09 id ⟨"move", "/b/x", "/a/0", none, none⟩ exPatchData =
+      ([("a", .list [.leaf ⟨"int", "1"⟩, .leaf ⟨"int", "1"⟩, .leaf ⟨"int", "2"⟩]), ("b", .cont [])], false) ∧
+    patchOpC09 id ⟨"copy", "", "/b/y", none, some "a[1]"⟩ exPatchData = (exPatchData, true) ∧
+    patchOpC09 id ⟨"add", "", "/b/y", none, some "a[1]"⟩ exPatchData =
+      ([("a", .list [.leaf ⟨"int", "1"⟩, .leaf ⟨"int", "2"⟩]),
+        ("b", .cont [("x", .leaf ⟨"int", "1"⟩), ("y", .leaf ⟨"int", "2"⟩)])], false) ∧
+    patchOpC09 id ⟨"remove", "", "/a/7", none, none⟩ exPatchData = (exPatchData, true) ∧
+    patchOpC09 id ⟨"remove", "", "a/0", none, none⟩ exPatchData = (exPatchData, true) := by
+  decide +kernel
+
+/-- … and the hypotheses of the transfer theorems hold for the first of these: the document is valid and
+    the operation object is in C09's domain -/
+theorem nonvacuous_patchOp_C09_hyps :
+    (Node.cont exPatchData).Valid ∧
+    Patch.OpOk (c09Obj ⟨"add", none, ["a", "1"], some (.leaf ⟨"int", "9"⟩)⟩) := by
+  refine ⟨?_, ⟨by decide, ?_⟩⟩
+  · have h0 : (Node.cont []).Valid := ⟨.cont .nil (by simp), .cont (by simp) (by simp)⟩
+    have ha : (Node.list [.leaf ⟨"int", "1"⟩, .leaf ⟨"int", "2"⟩]).Valid :=
+      Patch.valid_list (by simp [Node.Valid.leaf])
+    have hb := Patch.valid_insert h0 (Node.Valid.leaf ⟨"int", "1"⟩) (k := "x") (by decide)
+    have h1 := Patch.valid_insert h0 ha (k := "a") (by decide)
+    exact Patch.valid_insert h1 hb (k := "b") (by decide)
+  · intro v hv; cases hv; exact Node.Valid.leaf _
+
+/-! ### round 8, cross-property C12 / C14 ↔ C13: the interpreter executes THESE data operations
+
+  `Ytk.Pipeline.run` (YtkModel/Pipeline.lean — the interpreter of C12 and C14, which the harness compares
+  with whole pipeline executions) has its own transcription of SetOp.Do and TemplateOp.Do; the theorems of
+  this file are about `Ytk.PD` (YtkModel/PipelineData.lean — compared with single operations).  The two
+  transcriptions are the same functions, so every law above holds for the operations as they occur INSIDE a
+  pipeline run (in an action tree, a forEach body, a loop, a callable). -/
+
+/-- SetOp.Do inside the interpreter IS `setOp` of this file with the interpreter's merge for `mergeC` -/
+theorem interp_set_is_setOp (data : Option Node) (path : String) (s : Option String) (d : AMap Node) :
+    Pipeline.setOp data path s d =
+      match setOp Pipeline.mergeKvs d (data.map Pipeline.contOf) path s with
+      | .ok d' => .ok d'
+      | _ => .error (if data.isNone then .noData else .badStrategy) :=
+  Pipeline.setOp_eq_pd data path s d
+
+/-- TemplateOp.Do inside the interpreter IS `templateOp` of this file with the interpreter's renderer
+    (outside `parseAs: yaml`, which the interpreter model does not own) -/
+theorem interp_template_is_templateOp (yp : String → Option (Option YNode)) (t p : String) (tr : Bool)
+    (pa : Option String) (d : AMap Node) (hy : pa ≠ some "yaml") :
+    (Pipeline.templateOp t p tr pa d).1 =
+      (templateOp (fun x => Pipeline.render x d) (fun x => Pipeline.renderLenient x d) Pipeline.trim yp
+        ⟨t, p, pa, tr⟩ d).1 ∧
+    (Pipeline.templateOp t p tr pa d).2.isSome =
+      (templateOp (fun x => Pipeline.render x d) (fun x => Pipeline.renderLenient x d) Pipeline.trim yp
+        ⟨t, p, pa, tr⟩ d).2 :=
+  Pipeline.templateOp_eq_pd yp t p tr pa d hy
+
+/-- one `Execute(SetOp)` of the interpreter, any fuel ≥ 1: it succeeds exactly when `setOp` does, the data
+    afterwards is `setOp`'s document (the callable registry is untouched); otherwise the state is unchanged -/
+theorem interp_set_run (n : Nat) (data : Option Node) (path : String) (s : Option String) (st : Pipeline.St) :
+    (∀ d', setOp Pipeline.mergeKvs st.data (data.map Pipeline.contOf) path s = .ok d' →
+      (Pipeline.run (n + 1) (.op (.set data path s)) st).err = none ∧
+      (Pipeline.run (n + 1) (.op (.set data path s)) st).st.data = d' ∧
+      (Pipeline.run (n + 1) (.op (.set data path s)) st).st.defs = st.defs) ∧
+    ((∀ d', setOp Pipeline.mergeKvs st.data (data.map Pipeline.contOf) path s ≠ .ok d') →
+      (Pipeline.run (n + 1) (.op (.set data path s)) st).err ≠ none ∧
+      (Pipeline.run (n + 1) (.op (.set data path s)) st).st = st) := by
+  simp only [Pipeline.run, Pipeline.wrap, interp_set_is_setOp]
+  cases setOp Pipeline.mergeKvs st.data (data.map Pipeline.contOf) path s with
+  | ok d0 =>
+    refine ⟨fun d' h => ?_, fun h => absurd rfl (h d0)⟩
+    cases h
+    exact ⟨rfl, rfl, rfl⟩
+  | err =>
+    refine ⟨fun d' h => ?_, fun _ => ⟨?_, rfl⟩⟩
+    · cases h
+    · simp [Pipeline.Res.fail]
+  | panic =>
+    refine ⟨fun d' h => ?_, fun _ => ⟨?_, rfl⟩⟩
+    · cases h
+    · simp [Pipeline.Res.fail]
+
+/-- `set_frame` for the operation INSIDE a run: after a successful `Execute(SetOp)` of the interpreter (a
+    container payload, a non-empty target that fits the data of the moment) every path that is not under
+    the target and not on the way to it finds the same node as before — or is a freshly padded slot. -/
+theorem interp_set_frame (n : Nat) (payload : AMap Node) (path q : String) (s : Option String) (st : Pipeline.St)
+    (hp : path ≠ "") (hf : Fits st.data (splitPath path))
+    (h1 : ¬ pathSteps (splitPath path) <+: pathSteps (splitPath q))
+    (h2 : ¬ pathSteps (splitPath q) <+: pathSteps (splitPath path))
+    (hok : (Pipeline.run (n + 1) (.op (.set (some (.cont payload)) path s)) st).err = none) :
+    let d' := (Pipeline.run (n + 1) (.op (.set (some (.cont payload)) path s)) st).st.data
+    lookup d' q = lookup st.data q ∨ (lookup st.data q = none ∧ lookup d' q = some Node.null) := by
+  intro d'
+  have hr := interp_set_run n (some (.cont payload)) path s st
+  simp only [Option.map_some, Pipeline.contOf] at hr
+  cases hs : setOp Pipeline.mergeKvs st.data (some payload) path s with
+  | ok d0 =>
+    have hd : d' = d0 := (hr.1 d0 hs).2.1
+    rw [hd]
+    exact set_frame Pipeline.mergeKvs st.data payload path q s hp hf h1 h2 d0 hs
+  | err => exact absurd hok (hr.2 (fun d' h => by rw [hs] at h; cases h)).1
+  | panic => exact absurd hok (hr.2 (fun d' h => by rw [hs] at h; cases h)).1
+
+/-- non-vacuity: `set_frame`'s list-item instance (`nonvacuous_frame_idx`), executed by the interpreter -/
+theorem nonvacuous_interp_set_frame :
+    (Pipeline.run 1 (.op (.set (some (.cont exPayload)) "a.l[3].b" (some "replace"))) ⟨exList, []⟩).err = none ∧
+    lookup (Pipeline.run 1 (.op (.set (some (.cont exPayload)) "a.l[3].b" (some "replace"))) ⟨exList, []⟩).st.data
+      "a.l[1]" = some Node.null ∧
+    lookup (Pipeline.run 1 (.op (.set (some (.cont exPayload)) "a.l[3].b" (some "replace"))) ⟨exList, []⟩).st.data
+      "a.l[0]" = some (.leaf ⟨"int", "1"⟩) := by
+  decide +kernel
+
+/-! ### round 8, cross-property C13 ↔ C01: the codec contract of `import_export_roundtrip`, factored
+
+  `CodecRoundTrips enc dec norm` bundles two things: the TEXT codec (yaml.v3 / encoding/json: plain value
+  ⇄ bytes — external) and the DOM ⇄ plain-value conversion (`Serialize` = encoder ∘ AsMap,
+  `FromReader` = FromMap ∘ decoder — dom/codec.go, modelled and proved in C01).  Here the contract is asked
+  of the text codec alone, on plain values; the DOM half is C01's theorem `decode_encode`. -/
+
+/-- the text codec of one format on plain values: decoding what was encoded gives the value back up to
+    the codec's own normalisation `normV` (external; e.g. numbers) -/
+def TextCodecRoundTrips (encT : List (String × Val) → List Nat) (decT : List Nat → Option (List (String × Val)))
+    (normV : List (String × Val) → List (String × Val)) : Prop := ∀ m, decT (encT m) = some (normV m)
+
+/-- C01 gives the DOM half: the file decoder `FromMap ∘ decT` undoes the file encoder `encT ∘ AsMap` on
+    every VALID container, up to the text codec's normalisation carried through FromMap / AsMap -/
+theorem codecRoundTrips_of_text (encT : List (String × Val) → List Nat)
+    (decT : List Nat → Option (List (String × Val))) (normV : List (String × Val) → List (String × Val))
+    (ht : TextCodecRoundTrips encT decT normV) :
+    CodecRoundTrips (fun kvs => encT (asMap kvs)) (fun bs => (decT bs).map fromMap)
+      (fun kvs => fromMap (normV (asMap kvs))) := by
+  intro kvs
+  simp [ht (asMap kvs)]
+
+/-- FromMap ∘ AsMap is the identity on valid containers (C01 `decode_encode` at the root) -/
+theorem fromMap_asMap (kvs : AMap Node) (h : (Node.cont kvs).Valid) : fromMap (asMap kvs) = kvs := by
+  have := decode_encode_aux (.cont kvs) h
+  simp only [encodeNode, decodeNode, Node.cont.injEq] at this
+  exact this
+
+/-- Export ∘ Import is the IDENTITY on the subtree: a valid container exported as YAML (resp. JSON) and
+    imported at another path yields the very same subtree, when the text codec returns the plain value it
+    was given (`normV = id`: no number normalisation, e.g. string / bool / null leaves).  Only the text
+    codec is assumed; the DOM conversion is C01's theorem. -/
+theorem import_export_identity (r : String → Option String) (lenient : String → String) (cd : Codecs)
+    (encT : List (String × Val) → List Nat) (decT : List Nat → Option (List (String × Val)))
+    (ht : TextCodecRoundTrips encT decT id) (hcd : cd.yaml = fun bs => (decT bs).map fromMap)
+    (data sub : AMap Node) (p : ValOrRef) (q : String) (hv : (Node.cont sub).Valid)
+    (hsub : lookup data (p.resolve r data) = some (.cont sub)) (hq : lenient q ≠ "") :
+    exportOp r "yaml" (some p) true data = (false, true, some (.doc .yaml sub)) ∧
+    lookup (importOp cd lenient (some (encT (asMap sub))) "yaml" q data).1 (lenient q) = some (.cont sub) := by
+  have hc := codecRoundTrips_of_text encT decT id ht
+  rw [← hcd] at hc
+  have := import_export_roundtrip r lenient cd _ _ hc data sub p q hsub hq
+  simpa [fromMap_asMap sub hv] using this
+
+/-- non-vacuity: a text codec that is the identity on a one-entry "file system" (the bytes are a tag, the
+    decoder returns the stored value): the contract holds, `exData`'s container `a` is valid -/
+theorem nonvacuous_import_export_identity :
+    (Node.cont [("b", .leaf ⟨"int", "1"⟩), ("c", .cont [("d", .leaf ⟨"string", "x"⟩)])]).Valid ∧
+    lookup exData "a" = some (.cont [("b", .leaf ⟨"int", "1"⟩), ("c", .cont [("d", .leaf ⟨"string", "x"⟩)])]) ∧
+    fromMap (asMap [("b", .leaf ⟨"int", "1"⟩), ("c", .cont [("d", .leaf ⟨"string", "x"⟩)])]) =
+      [("b", .leaf ⟨"int", "1"⟩), ("c", .cont [("d", .leaf ⟨"string", "x"⟩)])] := by
+  refine ⟨Node.validB_sound _ (by decide +kernel), by decide +kernel, by decide +kernel⟩
+
+/-! ### round 8: the frame law of PatchOp (clause C13.7, the part that was open) -/
+
+/-- PatchOp changes only its target location.  For add / remove / replace / copy / test over C09's
+    interpreter (hypotheses of `patchOp_refines_C09`): if the (parsed, rendered) target pointer
+    `pre ++ t :: tail` and another pointer `pre ++ u :: qs` part at two different member names `t ≠ u` of
+    the object at `pre`, then what the other pointer resolves to (RFC 6901 evaluation `getTok`) is the same
+    before and after the operation — whether it succeeds or fails.  (Under an ARRAY parent, add / remove
+    shift the later elements by the RFC's own semantics; `move` touches two locations.  Neither is
+    claimed.)  From the frame law of the RFC 6902 reference, `Patch.rfc6902_frame_key`
+    (YtkProofs/GapPatchFrame.lean). -/
+theorem patch_frame (lenient : String → String) (ps : PatchSpec) (data : AMap Node)
+    (call : PatchCall Ptr.Path) (h : patchArgs Ptr.parseS lenient ps data = some call)
+    (ho : Patch.OpOk (c09Obj call)) (hd : (Node.cont data).Valid)
+    (hop : call.op = "add" ∨ call.op = "remove" ∨ call.op = "replace" ∨ call.op = "copy" ∨ call.op = "test")
+    (pre : Ptr.Path) (t u : String) (tail qs : Ptr.Path) (hp : call.path = pre ++ t :: tail) (htu : t ≠ u)
+    (hk : ∃ kvs, Ptr.getTok (.cont data) pre = some (.cont kvs)) :
+    Ptr.getTok (.cont (patchOpC09 lenient ps data).1) (pre ++ u :: qs) =
+      Ptr.getTok (.cont data) (pre ++ u :: qs) := by
+  rw [(patchOp_refines_C09 lenient ps data call h ho hd).2]
+  cases hr : Patch.rfc6902 (c09Obj call) (.cont data) with
+  | none => rfl
+  | some n =>
+    cases n with
+    | cont d' =>
+      exact Patch.rfc6902_frame_key (c09Obj call) (.cont data) (.cont d') pre t u tail qs hop
+        (by simp [c09Obj, hp]) htu hk hr
+    | leaf v => rfl
+    | list xs => rfl
+
+/-- non-vacuity on `exPatchData` = `{a: [1, 2], b: {x: 1}}`: `add /b/y 9` (target under the object `b`)
+    leaves `/b/x` and `/a/1` alone — the hypotheses hold with `pre = [b]`, `t = y`, `u = x` resp.
+    `pre = []`, `t = b`, `u = a` — and the new member is there -/
+theorem nonvacuous_patch_frame :
+    let ps : PatchSpec := ⟨"add", "", "/b/y", some (.leaf ⟨"int", "9"⟩), none⟩
+    (patchArgs Ptr.parseS id ps exPatchData).map (fun c => (c.op, c.from_, c.path, c.value)) =
+      some ("add", none, ["b", "y"], some (.leaf ⟨"int", "9"⟩)) ∧
+    Patch.OpOk (c09Obj ⟨"add", none, ["b", "y"], some (.leaf ⟨"int", "9"⟩)⟩) ∧
+    (∃ kvs, Ptr.getTok (.cont exPatchData) ["b"] = some (.cont kvs)) ∧
+    Ptr.getTok (.cont (patchOpC09 id ps exPatchData).1) ["b", "x"] = some (.leaf ⟨"int", "1"⟩) ∧
+    Ptr.getTok (.cont (patchOpC09 id ps exPatchData).1) ["a", "1"] = some (.leaf ⟨"int", "2"⟩) ∧
+    Ptr.getTok (.cont (patchOpC09 id ps exPatchData).1) ["b", "y"] = some (.leaf ⟨"int", "9"⟩) := by
+  intro ps
+  refine ⟨by decide +kernel, ⟨by decide, ?_⟩, ⟨_, rfl⟩, by decide +kernel, by decide +kernel, by decide +kernel⟩
+  intro v hv; cases hv; exact Node.Valid.leaf _
 
 end Ytk.C13
 
